@@ -56,9 +56,29 @@ if [ -d mutants/$PROP ]; then
   MISS=$(grep -E "^MISSED|^CTL-ALARM" $S/self.out | tr '\n' ';')
   echo "selftest property=$PROP variants=$N caught=$CAUGHT controls_silent=$CTL skipped=$SKIP ${MISS:+FAILED: $MISS}"
 fi
-python3 - "$EV/$PROP.json" "$N" "$CAUGHT" "$CTL" "$SKIP" "$MISS" "$S" <<'PY'
+# ---- the property's negative controls (behaviour-preserving refactorings, controls/<Cnn>-*) must stay silent and its
+# ---- seeded changes (seeded/<Cnn>-*) must be reported, under this property's own rules
+RN=0; RSIL=0; RAL=""; SN=0; SC=0; SMISS=""
+if [ -d "$S/base" ] || rsync -a --exclude .git "$REPO"/ $S/base/; then
+  run_ctl() {
+    d=$1; S=$2; PROP=$3; kind=$4
+    id=$(basename $d); w=$S/c_${kind}_$id
+    cp -r $S/base $w
+    if ! (cd $w && patch -p1 -s --no-backup-if-mismatch < $d/patch.diff >/dev/null 2>&1); then echo "SKIP $id"; rm -rf $w; return; fi
+    if /verif/bin/gabilint -repo $w -prop $PROP -evidence "" -findings /verif/known_findings.json >$w.out 2>&1; then echo "SILENT $id"; else echo "REPORTED $id"; fi
+    rm -rf $w $w.out
+  }
+  export -f run_ctl
+  ls -d /verif/controls/$PROP-* 2>/dev/null | xargs -r -P 6 -I{} bash -c 'run_ctl {} '"$S $PROP ctl" > $S/ctl.out
+  RN=$(grep -c . $S/ctl.out); RSIL=$(grep -c "^SILENT" $S/ctl.out); RAL=$(grep "^REPORTED" $S/ctl.out | awk '{print $2}' | tr '\n' ' ')
+  ls -d /verif/seeded/$PROP-* 2>/dev/null | xargs -r -P 6 -I{} bash -c 'run_ctl {} '"$S $PROP seed" > $S/seed.out
+  SN=$(grep -c . $S/seed.out); SC=$(grep -c "^REPORTED" $S/seed.out); SMISS=$(grep "^SILENT" $S/seed.out | awk '{print $2}' | tr '\n' ' ')
+  echo "selftest property=$PROP refactoring_controls=$RN silent=$RSIL ${RAL:+ALARMED: $RAL}seeded_changes=$SN reported=$SC ${SMISS:+missed: $SMISS}"
+fi
+python3 - "$EV/$PROP.json" "$N" "$CAUGHT" "$CTL" "$SKIP" "$MISS" "$S" "$RN" "$RSIL" "$RAL" "$SN" "$SC" "$SMISS" <<'PY'
 import json,sys,glob,os
 f,n,c,ctl,skip,miss,S=sys.argv[1:8]
+rn,rsil,ral,sn,sc,smiss=sys.argv[8:14]
 e=json.load(open(f))
 cov=e['coverage']
 cfgs=[{"config":"host (linux/amd64)","obligations":cov.get('obligations'),"discharged":cov.get('discharged')}]
@@ -70,6 +90,10 @@ for d in sorted(glob.glob(S+'/ev_*')):
 cov['build_configurations']=cfgs
 cov['checker_selftest']={"variants":int(n),"mutants_caught":int(c),"controls_silent":int(ctl),"skipped_patch_does_not_apply":int(skip),"failed":miss,
   "what":"each variant is a stored single-edit change of /repo (mutants/<id>/*.patch) that breaks one obligation and still compiles; the checker must report the expected obligation; controls are behaviour-preserving edits on which it must stay silent"}
+cov['negative_controls']={"behaviour_preserving_changes":int(rn),"silent":int(rsil),"alarmed":ral.split(),
+  "what":"refactorings written by sub-agents that leave behaviour unchanged (controls/<id>/): this property's rules must not report them"}
+cov['seeded_changes']={"property_breaking_changes":int(sn),"reported":int(sc),"missed":smiss.split(),
+  "what":"changes written by sub-agents that break this property while compiling and passing the test suite (seeded/<id>/): this property's rules must report them; the misses are the by-design ones listed in DESIGN.md"}
 json.dump(e,open(f,'w'),indent=1)
 PY
 if [ -n "$MISS" ]; then
